@@ -50,6 +50,12 @@ ACCUMULATORS = {
     "builtins.sorted": "builds the result list", "builtins.list": "builds the result", "builtins.tuple": "builds the result",
     "builtins.set": "builds the result", "builtins.dict": "builds the result",
 }
+#: the tools with a documented window (the statement's list); any other tool is bounded by a small constant per source
+WINDOW_TOOLS = {
+    "itertools.batched": "one batch of n items", "heapq.nlargest": "n items", "heapq.nsmallest": "n items",
+    "heapq._largest": "n items", "itertools.Tee": "the lead of the fastest child", "itertools.tee": "the lead of the fastest child",
+    "itertools.Tee.__init__": "the lead of the fastest child", "itertools.tee_peer": "the lead of the fastest child",
+}
 GROW_METHODS = {"append", "appendleft", "add", "extend", "extendleft", "insert", "update", "setdefault"}
 HEAP_GROW = {"heappush"}
 HEAP_KEEP = {"heapreplace", "heappushpop", "heappop", "heapify"}
@@ -73,6 +79,7 @@ def run(ctx) -> None:
     r20_5(ctx)
     r20_6(ctx)
     r20_7(ctx)
+    r20_8(ctx)
     ctx.floor("streaming_units", 20)
     ctx.floor("pull_loops", 15)
     ctx.floor("windows_checked", 3)
@@ -170,6 +177,10 @@ def _is_source(ctx, u, e, n) -> bool:
     """``e`` denotes (an iterator of) an iterable parameter of some library function"""
     from asl.values import roles_of_annotation
     for x in ctx.vals.expr(u, e, n):
+        while x[0] == "borrowed" and isinstance(x[1], tuple):
+            x = x[1]  # a borrowed view hands out the very items of what it wraps
+        if x[0] == "iter" and isinstance(x[1], tuple) and x[1][:1] == ("user",):
+            x = x[1]
         if x[0] not in ("user", "iter", "siter") or ":" not in str(x[1]):
             continue
         owner, _, pname = x[1].partition(":")
@@ -210,6 +221,18 @@ def r20_5(ctx) -> None:
                 t = ctx.pkg.lib_unit(r.qual)
                 if t is not None and ctx.pkg.canonical(t) in ACCUMULATORS and ctx.pkg.canonical(t) != "itertools.cycle":
                     lib_acc = t  # the library's own collecting functions keep every item as well
+            if r.kind == "lib" and lib_acc is None:
+                t = ctx.pkg.lib_unit(r.qual)
+                tc = ctx.pkg.lib_class(r.qual) if t is None else None
+                tq = ctx.pkg.canonical(t) if t is not None else (ctx.pkg.canonical_class(tc) if tc is not None else None)
+                own = ctx.pkg.canonical(ctx.unit(short))
+                if tq in WINDOW_TOOLS and own not in WINDOW_TOOLS:
+                    for a in n.ast.args[:1]:
+                        if not isinstance(a, ast.Starred) and _is_source(ctx, u, a, n):
+                            bad += 1
+                            ctx.fail("R20.5", u, n, f"`{norm(n.ast.func)}(...)` is handed the source `{norm(a)}`: it keeps its window "
+                                     f"({WINDOW_TOOLS[tq]}) alive, and {short.split('.')[-1]} has no documented window of its own", node=n)
+                continue
             if lib_acc is None and (name not in MATERIALISERS or (r.kind == "stdlib" and not r.qual.startswith(("builtins.", "collections.")))):
                 continue
             for a in n.ast.args[:1]:
@@ -439,6 +462,17 @@ class _Relabel:
 
     def fail(self, rule, *a, **k):
         return self._ctx.fail(self._rid, *a, **k)
+
+
+def r20_8(ctx) -> None:
+    """tee: what ``Tee.__init__`` builds is evaluated on the object model; the buffers are reachable from the tee
+    object only through the shared list a finished child removes its buffer from."""
+    from . import objmodel
+    ctx.rule("R20.8", "tee: evaluated construction - the tee object refers to the children's buffers only through the "
+                      "shared list of live buffers (no second container keeps a finished child's backlog alive)")
+    P = c09._params(ctx.unit("itertools.tee_peer"))
+    if objmodel.tee_construction(ctx, "R20.8", P, retention=True) is None:
+        ctx.note("R20.8: the construction of tee is not evaluable over the object model; R20.2 alone decides tee")
 
 
 def r20_3(ctx) -> None:
